@@ -10,6 +10,9 @@ TRUST = ("Trusted base: go/packages + go/types type-checking of /repo's working 
 
 # id -> (technique, level text, design ref)
 CLAIMED = {
+ "C09": ("map-iteration-order classification (reviewed table), sort-comparator lint, forbidden-call scan, SSA path table of File.Render, reachability-scoped who-may-produce rule, template parse-tree order, go/cfg dominance and error-gate polarity",
+         "Static necessary conditions only: no order-sensitive map iteration or mis-indexed comparator in generator packages, no ambient nondeterminism, seeded example randomizer, existing example files never opened, append-only opening, gen directories wiped before regeneration, sorted output list, write-pipeline errors tested with the right polarity. Cannot prove byte equality across processes.",
+         "DESIGN.md §3 C09"),
  "C11": ("go/cfg ordering, gate and dominance rules on eval.RunDSL; loop-exit and dispatch tables; SSA path table of Record",
          "Static necessary conditions only: global phase barrier and error gates between phases on every path of RunDSL, whole-list loops, re-reading of roots registered during execution, no early exit from the set runners, interface/method dispatch pairing, dependency callbacks that depend on their argument. Does not decide that Roots() is a topological sort with cycle detection for every graph.",
          "DESIGN.md §3 C11"),
